@@ -13,7 +13,7 @@ def run(ctx):
     for mode in modes:
         r = wf.gen(ctx, mode, level if mode in ("mutant", "short") else 1)
         states += r.distinct
-        summary, mism = wf.execute(ctx, r.outfile)
+        summary, mism = wf.execute(ctx, r.outfile, timeout=1800 if ctx.quick() else 7200)
         wf.report(ctx, mism, {"C02"})
         evals += sum(summary["cases"].values())
         accepted += summary.get("accepted_by_parser", 0)
